@@ -21,7 +21,7 @@ ASSUMPTIONS = ['no stop in this stratum; publications concurrent with a subscrip
 PROBES = ['unspied_subscriber', 'late_subscriber_with_prior_subscribers', 'publish_before_start', 'subscribe_from_handler']
 PLAN = {
   'quick': {'strata': {'configs': 3000, 'concurrent-subscribe': 1500}, 'wall_s': 300, 'chunk': 50, 'min_conclusive': 800},
-  'thorough': {'strata': {'configs': 80000, 'concurrent-subscribe': 40000}, 'wall_s': 900, 'chunk': 100, 'min_conclusive': 8000},
+  'thorough': {'strata': {'configs': 80000, 'concurrent-subscribe': 40000}, 'wall_s': 900, 'chunk': 100, 'min_conclusive': 800},
 }
 
 
